@@ -100,7 +100,7 @@ def load(repo="/repo", profile="debug"):
             finally:
                 if os.path.exists(tmp):
                     os.remove(tmp)
-            # keep the cache small: at most 12 fact files
+            # keep the cache small: at most 40 fact files (21 MB each)
             ents = sorted((os.path.getmtime(os.path.join(d, f)), f) for f in os.listdir(d))
             for _, f in ents[:-40]:
                 os.remove(os.path.join(d, f))
@@ -108,6 +108,10 @@ def load(repo="/repo", profile="debug"):
     finally:
         fcntl.flock(lock, fcntl.LOCK_UN)
         lock.close()
+    try:
+        os.utime(path, None)      # LRU: the eviction above removes the least recently *used* files
+    except OSError:
+        pass
     with open(path) as fh:
         doc = json.load(fh)
     if doc.get("crate") != "lc3_ensemble" or doc.get("n_bodies", 0) < 400:
